@@ -118,6 +118,38 @@ def well_cost_term(R, rows):
             f'{Q(e("production_well_cost_adjustment_factor")["value"])}) {Q(e("cost_one_production_well")["value"])}')
 
 
+def plant_term(R):
+    """surface-plant capital cost incl. end-use equipment and the CHP split against Model/Costs.v (plant_cost)"""
+    s = R.s
+    P = lambda a: s.p('economics', a)
+    mx = lambda comp, name: max(s.v(comp, name, [0.0]) or [0.0]) if isinstance(s.v(comp, name, [0.0]), list) else s.v(comp, name, 0.0)
+    kind = 'PPower'
+    eq_param, eq_out, max_eq = None, 0.0, 0.0
+    if R.enduse == 2:
+        kind = {5: 'PChiller', 6: 'PHeatPump', 7: 'PDistrict'}.get(R.plant, 'PHeat')
+        if kind == 'PChiller':
+            eq_param, max_eq = P('chillercapex'), mx('surfaceplant', 'cooling_produced')
+            eq_out = eq_param['value']
+        elif kind == 'PHeatPump':
+            eq_param, max_eq = P('heatpumpcapex'), mx('surfaceplant', 'HeatProduced')
+            eq_out = eq_param['value']
+        elif kind == 'PDistrict':
+            eq_out = P('peakingboilercost')['value']
+    eff = s.v('surfaceplant', 'enduse_efficiency_factor', 1.0)
+    hp = s.v('surfaceplant', 'HeatProduced', [0.0])
+    hp_over = max([x / eff for x in hp]) if isinstance(hp, list) and hp and eff else 0.0
+    ratio = P('CAPEX_heat_electricity_plant_ratio')
+    rec = ('{| p_kind := %s; p_cogen := %s; p_fixed_valid := %s; p_fixed := %s; p_adj := %s; p_max_he := %s; p_eq_provided := %s; '
+           'p_eq_in := %s; p_max_eq := %s; p_max_peaking := %s; p_corr := %s; p_max_hp_over_eff := %s; p_ratio_provided := %s; '
+           'p_ratio_in := %s |}') % (
+        kind, B(R.enduse in econ.COGEN), B(P('ccplantfixed')['valid']), Q(P('ccplantfixed')['value']), Q(P('ccplantadjfactor')['value']),
+        Q(mx('surfaceplant', 'HeatExtracted')), B(bool(eq_param and eq_param['provided'])), Q(eq_param['value'] if eq_param else 0.0),
+        Q(max_eq), Q(s.v('surfaceplant', 'max_peaking_boiler_demand', 0.0)), Q(s.v('economics', 'Cplantcorrelation', 0.0)), Q(hp_over),
+        B(ratio['provided']), Q(ratio['value']))
+    return (f'plant_agree {qconv.q(TOL)} {rec} {Q(P("Cplant")["value"])} {Q(eq_out)} {Q(s.v("economics", "CAPEX_cost_electricity_plant", 0.0))} '
+            f'{Q(s.v("economics", "CAPEX_cost_heat_plant", 0.0))} {Q(ratio["value"])}'), kind
+
+
 def dh_terms(R):
     """district-heating runs: network cost and district O&M against Model/Costs.v fed the run's own inputs"""
     s = R.s
@@ -180,6 +212,13 @@ def run_part(ctx, texts, rows):
                 'reported': out}
         terms.append(term)
         owners.append(('roll-up', desc, text, flags if interesting else None))
+        if R.cls == 'Economics':
+            try:
+                pt, pk = plant_term(R)
+                terms.append(pt)
+                owners.append(('plant-cost', desc, text, ('plant', pk, R.enduse in econ.COGEN, R.s.p('economics', 'ccplantfixed')['valid'])))
+            except (KeyError, TypeError, ZeroDivisionError) as ex:
+                ctx.note(f'plant-cost fields not readable: {ex!r}')
         if R.plant == 7 and R.cls == 'Economics' and not R.s.p('economics', 'totalcapcost')['valid']:
             try:
                 dts, how = dh_terms(R)
